@@ -392,6 +392,27 @@ impl CodegenBackend for ProtobufBackend {
                 let mut tags = self.field_tags(field).map(|tag| tag.to_string());
                 let tags = tags.join("|");
 
+                // a oneof that reaches its own message is stored boxed, but the oneof's `merge`
+                // takes `&mut Option<Self>`: merge into the unboxed value and box it again
+                let boxed_oneof = self.is_one_of(&field.ty)
+                    && self
+                        .cx
+                        .with_adjust(field.did, |adj| adj.map(|a| a.boxed()).unwrap_or(false));
+                if boxed_oneof {
+                    return format! {
+                        r#"{tags} => {{
+                    let mut _inner_pilota_unboxed = self.{field_ident}.take().map(|v| *v);
+                    let mut _inner_pilota_value = &mut _inner_pilota_unboxed;
+                    let _inner_pilota_result = {merge};
+                    self.{field_ident} = _inner_pilota_unboxed.map(::std::boxed::Box::new);
+                    _inner_pilota_result.map_err(|mut error| {{
+                        error.push(STRUCT_NAME, stringify!({field_ident}));
+                        error
+                    }})
+                }},"#
+                    };
+                }
+
                 format! {
                     r#"{tags} => {{
                     let mut _inner_pilota_value = &mut self.{field_ident};
